@@ -993,22 +993,22 @@ Ltac csi_branch :=
   | |- okres _ _ (rep _ _) => now apply rep_ok
   | |- okres _ _ (decstbm _ _) => now apply decstbm_ok
   | |- okres _ _ (sgr _ _) => now apply sgr_ok
-  | |- okres _ _ (scroll_up _ _) => apply scroll_up_ok; [assumption | lia]
-  | |- okres _ _ (scroll_down _ _) => apply scroll_down_ok; [assumption | lia]
+  | |- okres _ _ (scroll_up _ _) => apply scroll_up_ok; assumption
+  | |- okres _ _ (scroll_down _ _) => apply scroll_down_ok; assumption
   | |- okres _ _ (fold_params (sm1 _) _ _) => apply fold_params_ok; auto; intros; now apply sm1_ok
   | |- okres _ _ (fold_params decset1 _ _) => apply fold_params_ok; auto; intros; now apply decset1_ok
   | |- okres _ _ (fold_params decrst1 _ _) => apply fold_params_ok; auto; intros; now apply decrst1_ok
-  | |- okres _ _ (TOk (cuu _ _)) => apply okres_ok, cuu_ok; [assumption | lia]
-  | |- okres _ _ (TOk (cud _ _)) => apply okres_ok, cud_ok; [assumption | lia]
-  | |- okres _ _ (TOk (cuf _ _)) => apply okres_ok, cuf_ok; [assumption | lia]
-  | |- okres _ _ (TOk (cub _ _)) => apply okres_ok, cub_ok; [assumption | lia]
-  | |- okres _ _ (TOk (cnl _ _)) => apply okres_ok, cnl_ok; [assumption | lia]
-  | |- okres _ _ (TOk (cpl _ _)) => apply okres_ok, cpl_ok; [assumption | lia]
-  | |- okres _ _ (TOk (cha _ _)) => apply okres_ok, cha_ok; [assumption | lia]
-  | |- okres _ _ (TOk (hpa _ _)) => apply okres_ok, hpa_ok; [assumption | lia]
-  | |- okres _ _ (TOk (hpr _ _)) => apply okres_ok, hpr_ok; [assumption | lia]
-  | |- okres _ _ (TOk (vpa _ _)) => apply okres_ok, vpa_ok; [assumption | lia]
-  | |- okres _ _ (TOk (vpr _ _)) => apply okres_ok, vpr_ok; [assumption | lia]
+  | |- okres _ _ (TOk (cuu _ _)) => apply okres_ok, cuu_ok; assumption
+  | |- okres _ _ (TOk (cud _ _)) => apply okres_ok, cud_ok; assumption
+  | |- okres _ _ (TOk (cuf _ _)) => apply okres_ok, cuf_ok; assumption
+  | |- okres _ _ (TOk (cub _ _)) => apply okres_ok, cub_ok; assumption
+  | |- okres _ _ (TOk (cnl _ _)) => apply okres_ok, cnl_ok; assumption
+  | |- okres _ _ (TOk (cpl _ _)) => apply okres_ok, cpl_ok; assumption
+  | |- okres _ _ (TOk (cha _ _)) => apply okres_ok, cha_ok; assumption
+  | |- okres _ _ (TOk (hpa _ _)) => apply okres_ok, hpa_ok; assumption
+  | |- okres _ _ (TOk (hpr _ _)) => apply okres_ok, hpr_ok; assumption
+  | |- okres _ _ (TOk (vpa _ _)) => apply okres_ok, vpa_ok; assumption
+  | |- okres _ _ (TOk (vpr _ _)) => apply okres_ok, vpr_ok; assumption
   | |- okres _ _ (TOk (cht _ _)) => apply okres_ok, cht_ok; assumption
   | |- okres _ _ (TOk (cbt _ _)) => apply okres_ok, cbt_ok; assumption
   | |- okres _ _ (TOk (tbc _ _)) => apply okres_ok, tbc_ok; assumption
@@ -1024,6 +1024,7 @@ Proof.
   intros H Hne; unfold csi, with_ps; cbv zeta.
   destruct (ps_of_ok params Hne) as [v [Ev Hv]]; rewrite Ev; cbn [tbind].
   assert (Hd : 0 <= dflt1 v) by (pose proof (dflt1_pos v); lia).
+  assert (Hv0 : 0 <= v) by lia.
   repeat case_if; csi_branch.
 Qed.
 
